@@ -578,7 +578,7 @@ func rFamily(tier string) *core.Family {
 }
 
 // R-alloc: an element count of the top-level function is replaced by 2^bit;
-// load runs under a hard memory limit of 1 MB.  The Go heap may not grow by
+// load runs under a hard memory limit of 64 KB.  The Go heap may not grow by
 // more than 16 times the limit while load runs (runtime.MemStats.TotalAlloc is
 // an exact byte count; the worker runs one case at a time).
 func aFamily(tier string) *core.Family {
@@ -592,17 +592,16 @@ func aFamily(tier string) *core.Family {
 	for k := range rDumps {
 		for _, f := range rFields[k] {
 			if f.kind == "count" && strings.Count(f.what, ".") == 1 { // F.ncode, F.nlines, F.nconsts, F.nupnames
-				for _, bit := range []int{22, 25} {
+				for _, bit := range []int{19, 22} {
 					cases = append(cases, ac{k, f, bit})
 				}
 			}
 		}
 	}
-	const limit = 1 << 20
+	const limit = 64 << 10
 	return &core.Family{
 		Name:        "R-alloc",
 		Size:        uint64(len(cases)),
-		Serial:      true,
 		HangSeconds: 120,
 		Show: func(i uint64) string {
 			c := cases[i]
